@@ -42,6 +42,12 @@ func c10Strata() []stratum {
 		}), 3},
 		{"general", with(func(c *gen.LCfg) { c.PAbsent = 3 }), 2},
 		{"sparse-sheet", with(func(c *gen.LCfg) { c.PAbsent = 50; c.POriginVar = 30 }), 2},
+		{"many-accounts", with(func(c *gen.LCfg) {
+			c.Accounts = manyAccounts(40)
+			c.Assets = []string{"USD", "COIN"}
+			c.Depth, c.Fanout, c.MaxStmts, c.PAbsent, c.PRepeat = 2, 24, 3, 10, 5
+			c.PSrcSeq, c.PSrcAllot, c.PWorld, c.POriginVar = 60, 15, 5, 20
+		}), 2},
 		{"biglits", with(func(c *gen.LCfg) {
 			c.Accounts = []string{"a", "b"}
 			c.Assets = []string{"USD"}
@@ -49,6 +55,14 @@ func c10Strata() []stratum {
 			c.MaxStmts, c.Depth = 3, 2
 		}), 2},
 	}
+}
+
+func manyAccounts(n int) []string {
+	out := make([]string, n)
+	for i := range out {
+		out[i] = fmt.Sprintf("src:%02d", i)
+	}
+	return out
 }
 
 // addMetaOrigin rewrites one plain variable of the case into a meta()-origin variable.
